@@ -9,8 +9,8 @@ Local Open Scope R_scope.
 
 Definition vecZ (l : list Z) : nat -> R := fun i => IZR (nth i l 0%Z).
 
-Lemma IZR_zsum n f : IZR (zsum n f) = rsum n (fun i => IZR (f i)).
-Proof. induction n as [|n IH]; cbn [zsum rsum]; [reflexivity|]. rewrite plus_IZR, IH. reflexivity. Qed.
+Lemma IZR_dot8 k d : IZR (dot8 k d) = rsum 8 (fun i => IZR (Mz k i) * IZR (d i)).
+Proof. unfold dot8. cbn [rsum]. rewrite !plus_IZR, !mult_IZR. ring. Qed.
 
 Lemma rsum_abs_bound n f b : (forall i, (i < n)%nat -> Rabs (f i) <= b) -> Rabs (rsum n f) <= INR n * b.
 Proof.
@@ -75,8 +75,12 @@ Qed.
 Lemma lin2_real data j :
   IZR (lin2_entry data j) / 67108864 = rsum 64 (fun p => mR (j / 8) (p / 8) * mR (j mod 8) (p mod 8) * vecZ data p).
 Proof.
-  unfold lin2_entry. rewrite IZR_zsum. unfold Rdiv. rewrite <- rsum_scal_r. apply rsum_ext. intros p _.
-  rewrite !mult_IZR. unfold mR, vecZ. field.
+  unfold lin2_entry. rewrite IZR_dot8.
+  change 64%nat with (8 * 8)%nat. rewrite rsum_block.
+  unfold Rdiv. rewrite <- rsum_scal_r. apply rsum_ext. intros y Hy.
+  rewrite IZR_dot8. rewrite Rmult_assoc, <- rsum_scal_r, <- rsum_scal. apply rsum_ext. intros x Hx.
+  destruct (divmod8 y x Hx) as [-> ->]. unfold mR, vecZ.
+  replace (8 * y + x)%nat with (y * 8 + x)%nat by lia. field.
 Qed.
 
 Lemma dct2_real (X : nat -> R) j :
